@@ -589,12 +589,64 @@ fn module_extremes_space() -> Space {
     .sandboxed(sb(256))
 }
 
+// space H: the bit-flip analysis end to end: an unmapped crash address one bit (bit 40) away from a mapped page, every
+// instruction kind at the crash site, the general-purpose registers all at the crash address / crowded around the
+// corrected address / at 0 / holding a poison pattern / left alone
+fn bitflip_space() -> Space {
+    use vh::procgen::{two_register_bitflip_model, ACCESS_INSTRS};
+    let fills: [Option<u64>; 5] = [None, Some(0x0000_0100_0001_0010), Some(0x1_0018), Some(0), Some(0xe5e5_e5e5_e5e5_e5e5)];
+    let radices = [fills.len() as u64, ACCESS_INSTRS.len() as u64, 4];
+    let n = product(&radices);
+    let gen = move |idx: u64| -> (Model, Value) {
+        let d = unrank(idx, &radices);
+        let mut m = two_register_bitflip_model();
+        m.gpr_fill = fills[d[0] as usize];
+        let mut code = ACCESS_INSTRS[d[1] as usize].1.to_vec();
+        code.resize(16, 0x90);
+        m.code = Some((0x4000_2000, code));
+        let x = m.exc.as_mut().expect("model has an exception");
+        match d[2] {
+            0 => {}
+            1 => {
+                m.platform_id = md::PlatformId::VER_PLATFORM_WIN32_NT as u32;
+                (x.code, x.flags, x.nparams) = (0xC000_0005, 0, 2);
+                x.info[0] = 0;
+                x.info[1] = x.address;
+            }
+            2 => {
+                m.platform_id = md::PlatformId::VER_PLATFORM_WIN32_NT as u32;
+                (x.code, x.flags, x.nparams) = (0xC000_0005, 0, 2);
+                x.info[0] = 1;
+                x.info[1] = x.address;
+            }
+            _ => {
+                m.platform_id = md::PlatformId::MacOs as u32;
+                (x.code, x.flags) = (1, 1);
+            }
+        }
+        let par = json!({"class": "bit-flip-analysis", "registers": fills[d[0] as usize].map(|v| format!("{v:#x}")), "instruction": ACCESS_INSTRS[d[1] as usize].0, "exception": (["linux SIGSEGV", "windows AV read", "windows AV write", "mac EXC_BAD_ACCESS"][d[2] as usize])});
+        (m, par)
+    };
+    let g2 = gen.clone();
+    Space::new(
+        "bit-flip-analysis",
+        n,
+        move |idx, l| {
+            let (m, d) = gen(idx);
+            let b = procgen::build(&m);
+            run_case(&b, &None, 2, l, &|| d.clone());
+        },
+        move |idx| g2(idx).1,
+    )
+    .sandboxed(sb(64))
+}
+
 fn main() {
     run_check("C03", |ctx| {
         let mut def = CheckDef::new(
             "C03",
             "fault_enumeration",
-            "every case = (dump bytes, symbol bytes served to every module, option set rotating over stable_basic / stable_all / unstable_all) through the real process_minidump_with_options and all four renderers in sandboxed workers (panic guard, 8 s wall confirmed by a solo re-run, 768 MiB heap cap), then frame budget (frames <= stack bytes + 2 per thread) and strict JSON validity. Spaces: one-deviation mutations (every 4-aligned offset x width {4,8} x boundary/directory-value menu) of the 54 synthetic seed dumps x 11 symbol menus (quick: shard VERIF_SEED mod 8 of the mutations, completely; thorough: all); all sequences of <= 3 /proc limits lines over 10 line shapes x LF/CRLF; amd64 crash contexts whose instruction bytes run over ALL 2-byte [thorough 3-byte] prefixes x rsp menu; x86 STACK WIN records with every size field in {0,1,4,2^31,2^32-1} x 3 record kinds x 4 esp values; every (a, b, operator) triple over an 11-value operand menu on the extremes of the 32-bit (STACK WIN program strings) and 64-bit (STACK CFI rules) ranges x 7 operators x 2 stack placements; CFI menus (CFA below/equal/above sp, memory-free rules) x 9 CPUs x 5 platforms x stack sizes x 3 placements incl. top of address space; memory-map regions ending at the extremes next to the crash address; loaded and unloaded modules whose range touches the ends of the address space (ending exactly at 2^64, one byte below, past it, empty) with a thread at their first / last / one-past-last byte. distinct_nontrivial = distinct (thread count, per-thread frame count + trust sequence, crash reason, option set).",
+            "every case = (dump bytes, symbol bytes served to every module, option set rotating over stable_basic / stable_all / unstable_all) through the real process_minidump_with_options and all four renderers in sandboxed workers (panic guard, 8 s wall confirmed by a solo re-run, 768 MiB heap cap), then frame budget (frames <= stack bytes + 2 per thread) and strict JSON validity. Spaces: one-deviation mutations (every 4-aligned offset x width {4,8} x boundary/directory-value menu) of the 54 synthetic seed dumps x 11 symbol menus (quick: shard VERIF_SEED mod 8 of the mutations, completely; thorough: all); all sequences of <= 3 /proc limits lines over 10 line shapes x LF/CRLF; amd64 crash contexts whose instruction bytes run over ALL 2-byte [thorough 3-byte] prefixes x rsp menu; x86 STACK WIN records with every size field in {0,1,4,2^31,2^32-1} x 3 record kinds x 4 esp values; every (a, b, operator) triple over an 11-value operand menu on the extremes of the 32-bit (STACK WIN program strings) and 64-bit (STACK CFI rules) ranges x 7 operators x 2 stack placements; CFI menus (CFA below/equal/above sp, memory-free rules) x 9 CPUs x 5 platforms x stack sizes x 3 placements incl. top of address space; memory-map regions ending at the extremes next to the crash address; loaded and unloaded modules whose range touches the ends of the address space (ending exactly at 2^64, one byte below, past it, empty) with a thread at their first / last / one-past-last byte; the bit-flip analysis (unmapped crash address one bit away from a mapped page x 10 instruction kinds x 5 register fills x 4 exception renderings). distinct_nontrivial = distinct (thread count, per-thread frame count + trust sequence, crash reason, option set).",
         );
         def.assumptions = vec![
             "small scope: mutated dumps are one deviation away from a seed; symbol bytes come from a 7-entry menu served to every module".into(),
@@ -602,7 +654,7 @@ fn main() {
             "time and memory budgets are constants (8 s, 768 MiB) far above what the tiny inputs legitimately need, not a function fitted to the input size".into(),
         ];
         def.extra.insert("quick_shard".into(), json!(ctx.seed % 8));
-        def.spaces = vec![limits_space(), stackwin_space(), operand_extremes_space(), cfi_space(), regions_space(), module_extremes_space(), opcode_space(ctx.tier), mutated_space(ctx.tier, ctx.seed)];
+        def.spaces = vec![limits_space(), stackwin_space(), operand_extremes_space(), cfi_space(), regions_space(), module_extremes_space(), bitflip_space(), opcode_space(ctx.tier), mutated_space(ctx.tier, ctx.seed)];
         def
     })
 }
